@@ -1,5 +1,5 @@
 CONSTANTS
-  Uids = {1, 2, 3}
+  Uids = {1, 2}
   Passwords = {1, 2}
   Tokens = {1, 2, 3}
   MaxLive = 2
